@@ -131,4 +131,20 @@ PROPS = {
                     "detector_is_parity for the inline evaluation inside the frame model is validated by correspondence"],
         "assumptions": ["Pauli targets in OBSERVABLE_INCLUDE are a documented exception for m2d; their sampled contribution is not compared"],
     },
+    "C03": {
+        "lean_modules": ["StimModel.Props.C03", "StimModel.Generated.RevThms", "StimModel.Generated.FrameThms", "StimModel.Generated.GateThms"],
+        "areas": [
+            {"area": "gatetab", "n": 1, "extra": ["Rev"]},
+            {"area": "cdem", "n": {"quick": 400, "thorough": 10000}, "replayable": True},
+        ],
+        "rule": "QEC-like circuits with deterministic detectors (random stabilizer groups measured by MPP over several rounds, random Clifford gates with chained pairs between rounds with the measured "
+                "products conjugated along, REPEAT, feedback, every noise channel incl. measurement-flip arguments, heralded and E/ELSE chains) and arbitrary annotated noisy circuits (mostly "
+                "non-deterministic detectors: rejection and gauge paths); options fold_loops x allow_gauge_detectors x approximate_disjoint_errors; the returned model or the rejection is judged by the "
+                "Lean oracle: forward single-fault symptoms, Fourier coefficients of both distributions in exact rationals on singletons, pairs and pseudo-random characters, support equality; "
+                "distinct = distinct circuit texts",
+        "trusted_base": ["mathematics (iii) of DESIGN §5: Fourier inversion on (Z/2)^n; the finite set of tested characters"],
+        "partial": ["rev_tracking_adjoint (the reverse walk equals forward injection for whole circuits) is not proved; it is what the correspondence tests, mechanism by mechanism, through the distribution oracle",
+                    "depolarize2_independent (the 8th-root identity) is not proved"],
+        "assumptions": [],
+    },
 }
